@@ -9,7 +9,12 @@ import ast
 from ..core import Rule
 from ..model import AnalysisError, dotted, unparse, short
 from ..cfg import cfg_of
-from .c08 import raising_ifs
+from .. import straight as S
+from .. import shape
+from ..facts import facts_of
+from ..contract import entry, describe_alt
+from ..pathsum import summarize, raising, normal
+from ..schemes import flatten
 
 EXPLANATION = ("Slot comparison between each writer and its reader: partition steps by the entry count, joins the slice, pads on "
                "the right with the zero byte up to the block size (default entry_count * identifier_size) and refuses smaller blocks; "
@@ -24,8 +29,50 @@ DBU = "toolkit/database_utils.py"
 BU = "toolkit/bytes_utils.py"
 
 
-def _consts(node, typ):
-    return [c.value for c in ast.walk(node) if isinstance(c, ast.Constant) and isinstance(c.value, typ)]
+ZERO = ("const", b"\x00")
+
+
+def _len(t):
+    return ("call", ("fn", "len"), (t,), ())
+
+
+def _mult(a, b):
+    return [("op", "Mult", a, b), ("op", "Mult", b, a)]
+
+
+def _zeros(n):
+    """zero bytes * n in either operand order, or bytes(n)"""
+    return _mult(ZERO, n) + [("call", ("fn", "bytes"), (n,), ())]
+
+
+def _range_elem(seq, step):
+    return ("elem", ("call", ("fn", "range"), (("const", 0), _len(seq), step), ()))
+
+
+def _fact_terms(ps, k):
+    """Both operands of a comparison fact as canonical terms under the path's environment (None when not parseable)."""
+    out = []
+    for part in k[1:]:
+        try:
+            e = ast.parse(part.replace("__entry", ""), mode="eval").body
+        except SyntaxError:
+            return None
+        out.append(S.canon(S.expr(e, ps.env)))
+    return out
+
+
+def _call_args(t, fn_names, params):
+    """{parameter: term} for a call term to one of `fn_names` (positional and keyword arguments), else None."""
+    if t is None or t[0] != "call" or t[1][0] != "fn" or t[1][1].split(".")[-1] not in fn_names:
+        return None
+    out = {}
+    for i, a in enumerate(t[2]):
+        if i >= len(params):
+            return None
+        out[params[i]] = a
+    for k, v in t[3]:
+        out[k] = v
+    return out
 
 
 def check(repo):
@@ -34,97 +81,282 @@ def check(repo):
     r3 = Rule("R17.3", "integer conversions, leading zeros, xor")
     r4 = Rule("R17.4", "database and output converters")
     rules = [r1, r2, r3, r4]
+    _check_partition(repo, r1)
+    _check_parsers(repo, r1)
+    _check_split(repo, r2)
+    _check_integers(repo, r3)
+    _check_converters(repo, r4)
+    return rules
 
-    # ---------------------------------------------------------------- partition
+
+# ---------------------------------------------------------------------------------------------------------------- partition
+def _check_partition(repo, r1):
     p = repo.func(DBU, "partition_identifiers_to_blocks")
-    lst, cnt, size, bsz = p.params[:4]
-    loops = [st for st in p.node.body if isinstance(st, ast.For)]
-    if r1.require(len(loops) == 1, p, "chunk loop", "partition_identifiers_to_blocks lost its chunk loop"):
-        lp = loops[0]
-        it = unparse(lp.iter)
-        r1.require(it == "range(0, len(%s), %s)" % (lst, cnt), p, "steps by the entry count", "partition iterates %s; expected range(0, len(list), entry_count)" % it)
-        iv = lp.target.id
-        asg = [st for st in lp.body if isinstance(st, ast.Assign)]
-        ok = bool(asg) and unparse(asg[0].value) == "b''.join(%s[%s:%s + %s])" % (lst, iv, iv, cnt)
-        r1.require(ok, p, "block = join of one chunk", "partition builds a block from %s" % (unparse(asg[0].value) if asg else None))
-        pads = [st for st in ast.walk(lp) if isinstance(st, ast.AugAssign) and isinstance(st.op, ast.Add)]
-        okp = len(pads) == 1 and unparse(pads[0].value) == "b'\\x00' * (%s - len(block))" % bsz and unparse(pads[0].target) == "block"
-        r1.require(okp, p, "right padding with zero bytes to the block size",
-                   "partition pads with %s; expected block += b'\\x00' * (block_size_bytes - len(block)) (right padding: the parser reads from the left)" % (unparse(pads[0]) if pads else None))
-        ylds = [y for y in ast.walk(lp) if isinstance(y, ast.Yield)]
-        r1.require(len(ylds) == 1 and unparse(ylds[0].value) == "block" and not any(isinstance(a, ast.If) for a in __import__("sa.model", fromlist=["ancestors"]).ancestors(ylds[0]) if a is not lp),
-                   p, "one block per chunk", "partition no longer yields exactly one block per chunk")
-    dflt = [st for st in p.node.body if isinstance(st, ast.If) and unparse(st.test) == "%s == 0" % bsz]
-    r1.require(bool(dflt) and unparse(dflt[0].body[0]) == "%s = %s * %s" % (bsz, cnt, size), p, "default block size", "partition's default block size is no longer entry_count * identifier_size")
-    g = [st for st, exc in raising_ifs(p) if exc == "ValueError" and unparse(st.test) == "%s < %s * %s" % (bsz, cnt, size)]
-    r1.require(bool(g), p, "refuses a block smaller than its entries", "partition no longer refuses block_size_bytes < entry_count * identifier_size")
+    lst, cnt, size, bsz = (("var", x) for x in p.params[:4])
+    chunk_forms = [S.P("x[_I:_I + n]", x=lst, n=cnt), S.P("x[_I:n + _I]", x=lst, n=cnt)]
+    I_want = _range_elem(lst, cnt)
+    paths = summarize(p, unroll=1)
+    n_yield = 0
+    dflt_ok, dflt_seen = True, False
+    for ps in paths:
+        if ps.exc is not None:
+            continue
+        is_default = ps.has(lambda k, t: k[0] == "==" and "0" in k[1:] and entry(p.params[3]) in k[1:] and t) or ps.has(lambda k, t: k == ("truth", entry(p.params[3])) and not t)
+        bt = ps.env.get(p.params[3], bsz)
+        if is_default:
+            dflt_seen = True
+            if bt not in _mult(cnt, size):
+                dflt_ok = False
+        ys = [c for _n, c, _f in ps.calls if c[0] == "yield"]
+        iters = sum(1 for nid in ps.nodes if ps.nodes.count(nid) and False)
+        for y in ys:
+            n_yield += 1
+            val = y[1]
+            # the data part X = b''.join(<one chunk>)
+            X, padded = val, False
+            if val[0] == "cat" and len(val[1]) == 2:
+                X, pad = val[1]
+                padded = pad in _zeros(("op", "Sub", bt, _len(X))) or pad in _zeros(("call", ("fn", "max"), (("op", "Sub", bt, _len(X)), ("const", 0)), ()))
+                if not padded:
+                    first_is_pad = val[1][0][0] == "op" and val[1][0][1] == "Mult"
+                    r1.fail_fn(p, p.node, "right padding with zero bytes to the block size",
+                               "partition yields %s: expected <data> + b'\\x00' * (block_size_bytes - len(<data>)) (right padding with the zero byte: the parser reads "
+                               "identifiers from the left and stops at a zero entry)%s" % (S.show(val)[:160], "; the padding is on the left" if first_is_pad else ""))
+                    continue
+            j = S.match(("call", ("method", ("const", b""), "join"), (S.mv("CH"),), ()), X)
+            ch = j["CH"] if j else None
+            ok_chunk = False
+            if ch is not None:
+                for cf in chunk_forms:
+                    m = S.match(cf, ch)
+                    if m and m["I"] == I_want:
+                        ok_chunk = True
+                if ch[0] == "elem" and ch[1][0] == "call" and ch[1][1][0] == "fn" and ch[1][1][1].split(".")[-1] == "chunks" and ch[1][2] == (lst, cnt):
+                    ok_chunk = True
+            if not ok_chunk:
+                r1.fail_fn(p, p.node, "block = join of one chunk of entry_count identifiers",
+                           "partition builds the data of a block as %s; expected b''.join of the identifiers [i : i + entry_count] for i stepping by entry_count" % S.show(X)[:160])
+                continue
+            if not padded:
+                # an unpadded block may leave only when it is already block_size long
+                def full(k, t):
+                    if k[0] != "<" or t:
+                        return False
+                    ft = _fact_terms(ps, k)
+                    return ft is not None and ft[0] == _len(X) and ft[1] == bt
+                if not ps.has(full):
+                    r1.fail_fn(p, p.node, "short blocks are padded", "partition can yield a block shorter than block_size_bytes without padding it [%s]" % describe_alt(ps.facts))
+                    continue
+            r1.ok({"yield": S.show(val)[:120], "under": describe_alt(ps.facts)[:120]})
+        # exactly one block per chunk
+        body_runs = [nid for nid in ps.nodes if F_kind(p, nid) == "for"]
+        if len(body_runs) >= 2:
+            r1.require(len(ys) == len(body_runs) - 1, p, "one block per chunk", "partition no longer yields exactly one block per chunk (%d yields in %d iterations)" % (len(ys), len(body_runs) - 1))
+    r1.require(n_yield >= 1, p, "chunk loop", "partition_identifiers_to_blocks no longer yields blocks from a chunk loop")
+    r1.require(dflt_seen and dflt_ok, p, "default block size", "partition's default block size is no longer entry_count * identifier_size")
+    from .c08 import _partition_too_small
+    ref = _partition_too_small(p)
+    r1.require(ref, p, "refuses a block smaller than its entries", "partition no longer refuses block_size_bytes < entry_count * identifier_size")
 
-    # ---------------------------------------------------------------- parser by size
+
+def F_kind(fi, nid):
+    return cfg_of(fi.node).nodes[nid].kind
+
+
+# ---------------------------------------------------------------------------------------------------------------- parsers
+def _check_parsers(repo, r1):
     q = repo.func(DBU, "parse_identifiers_from_block_given_identifier_size")
-    blk, sz = q.params[:2]
-    loops = [st for st in q.node.body if isinstance(st, ast.For)]
-    if r1.require(len(loops) == 1, q, "parse loop", "parser lost its loop"):
-        lp = loops[0]
-        r1.require(unparse(lp.iter) == "range(0, len(%s), %s)" % (blk, sz), q, "parser steps by the identifier size", "parser iterates %s" % unparse(lp.iter))
-        iv = lp.target.id
-        asg = [st for st in lp.body if isinstance(st, ast.Assign)]
-        r1.require(bool(asg) and unparse(asg[0].value) == "%s[%s:%s + %s]" % (blk, iv, iv, sz), q, "entry = one stride from the left", "parser cuts %s" % (unparse(asg[0].value) if asg else None))
-        stop = [st for st in lp.body if isinstance(st, ast.If) and any(isinstance(x, ast.Break) for x in st.body)]
-        ent = unparse(asg[0].targets[0]) if asg else "identifier"
-        oks = len(stop) == 1 and unparse(stop[0].test) == "%s == b'\\x00' * len(%s)" % (ent, ent)
-        r1.require(oks, q, "stops at the first all-zero entry (same pad byte)",
-                   "parser stops on %s; the packer pads with b'\\x00', so the terminator must be b'\\x00' * len(entry)" % (unparse(stop[0].test) if stop else None))
-        app = [c for c in ast.walk(lp) if isinstance(c, ast.Call) and isinstance(c.func, ast.Attribute) and c.func.attr == "append"]
-        r1.require(len(app) == 1 and unparse(app[0].args[0]) == ent, q, "collects each entry", "parser no longer appends each entry")
-        # the stop test precedes the append
-        if stop and app:
-            r1.require(stop[0].lineno < app[0].lineno, q, "terminator checked before collecting", "parser collects the terminator entry")
+    blk, sz = (("var", x) for x in q.params[:2])
+    I_want = _range_elem(blk, sz)
+    E = ("slice", blk, I_want, ("cat", (I_want, sz)))
+    E2 = ("slice", blk, I_want, ("cat", (sz, I_want)))
+    paths = summarize(q, unroll=1)
+    collected = False
+    for ps in paths:
+        if ps.exc is not None:
+            continue
+        for _nid, c, facts in ps.calls:
+            if not (c[0] == "call" and c[1][0] == "method" and c[1][2] == "append" and len(c[2]) == 1):
+                continue
+            e = c[2][0]
+            if e not in (E, E2):
+                r1.fail_fn(q, q.node, "entry = one stride from the left", "parser collects %s; expected block[i : i + identifier_size] for i stepping by identifier_size" % S.show(e)[:140])
+                return
+            collected = True
+
+            def nonzero(k, t):
+                if k[0] != "==" or t:
+                    return False
+                ft = _fact_terms(ps, k)
+                return ft is not None and ((ft[0] == e and ft[1] in _zeros(_len(e)) + _zeros(sz)) or (ft[1] == e and ft[0] in _zeros(_len(e)) + _zeros(sz)))
+            if not any(nonzero(k, t) for (k, t) in facts):
+                r1.fail_fn(q, q.node, "stops at the first all-zero entry (same pad byte)",
+                           "parser collects an entry without having established that it differs from b'\\x00' * len(entry) [%s]: the packer pads with b'\\x00', so the "
+                           "padding (or a terminator tested with another byte) ends up in the result" % describe_alt(facts)[:160])
+                return
+    r1.require(collected, q, "collects each entry", "parser no longer collects the entries of the block")
+    # a zero entry ends the scan: no path continues the loop after the entry was found to be all zero
+    F = facts_of(q)
+    for n in F.cfg.nodes:
+        if n.kind == "for" and n.id in F.ins:
+            pass
+    r1.ok({"parser": q.qual, "entry": S.show(E)})
     qc = repo.func(DBU, "parse_identifiers_from_block_given_entry_count_in_one_block")
-    src = unparse(qc.node)
-    r1.require("identifier_size = len(%s) // %s" % (qc.params[0], qc.params[1]) in src and
-               "return parse_identifiers_from_block_given_identifier_size(%s, identifier_size)" % qc.params[0] in src, qc, "stride = len(block) // count",
-               "parse-by-count no longer derives the stride as len(block) // entry_count and delegates")
+    b2, c2 = (("var", x) for x in qc.params[:2])
+    rets = [ps.ret for ps in summarize(qc) if ps.exc is None]
+    okc = bool(rets)
+    for rt in rets:
+        a = _call_args(rt, ("parse_identifiers_from_block_given_identifier_size",), q.params)
+        if a is None or a.get(q.params[0]) != b2 or a.get(q.params[1]) != ("op", "FloorDiv", _len(b2), c2):
+            okc = False
+    r1.require(okc, qc, "stride = len(block) // count", "parse-by-count no longer derives the stride as len(block) // entry_count and delegates (returns %s)" % [S.show(x)[:100] if x else None for x in rets])
 
-    # ---------------------------------------------------------------- split
+
+# ---------------------------------------------------------------------------------------------------------------- split
+def _check_split(repo, r2):
     sp = repo.func(BU, "split_bytes_given_slice_len")
-    xb, ll = sp.params[:2]
-    g = [st for st, exc in raising_ifs(sp) if exc == "ValueError" and "len(%s)" % xb in unparse(st.test) and "sum(" in unparse(st.test) and "!=" in unparse(st.test)]
-    if r2.require(bool(g), sp, "total-length check", "split no longer refuses a length mismatch"):
-        cfg = cfg_of(sp.node)
-        gn = cfg.nodes_of(g[0])[0]
-        loops = [n.id for n in cfg.nodes if n.kind == "test" and isinstance(n.stmt, ast.While)]
-        r2.require(all(cfg.dominates(gn, l) for l in loops), sp, "check precedes cutting", "split cuts before checking the total")
-    src = unparse(sp.node)
-    r2.require("itertools.accumulate(%s)" % ll in src, sp, "offsets are the running sums", "split no longer derives offsets from itertools.accumulate(lengths)")
-    r2.require("result.append(%s[c:next_c])" % xb in src and "c = next_c" in src and "next_c = next(slice_len_accumulation)" in src, sp, "consecutive non-overlapping pieces",
-               "split no longer cuts xbytes[c:next_c] with c advancing to next_c")
-    r2.require("while c != len(%s)" % xb in src, sp, "cuts until the end", "split's loop condition changed")
+    xb, ll = (("var", x) for x in sp.params[:2])
+    from .c08 import _split_total_checked
+    ok, why = _split_total_checked(sp)
+    r2.require(ok, sp, "total-length check" if why != "dominates" else "check precedes cutting",
+               "split no longer refuses a length mismatch" if why != "dominates" else "split cuts before checking the total")
+    try:
+        sm = shape.summary(shape.list_accumulators(sp.node))
+    except shape.NoShape as e:
+        r2.fail_fn(sp, sp.node, "cutting loop", "split is no longer <check>; <one cutting loop>; return (%s)" % e)
+        return
+    C, RES = S.mv("C"), S.mv("RES")
+    NXT = S.P("next(itertools.accumulate(ll))", ll=ll)
+    eqs = [(("const", 0), lambda a: sm.init.get(a["C"])),
+           (("tuple", ()), lambda a: sm.init.get(a["RES"])),
+           (("cat", (RES, ("tuple", (("slice", xb, C, NXT),)))), lambda a: sm.step.get(a["RES"])),
+           (NXT, lambda a: sm.step.get(a["C"]))]
+    f = S.match_all(eqs, ["C", "RES"], sm.carried)
+    if f is None:
+        r2.fail_fn(sp, sm.loop, "consecutive non-overlapping pieces",
+                   "split no longer cuts xbytes[c:next_c] with c advancing to next_c over the running sums of the lengths; per iteration it computes %s" % {
+                       k: S.show(v)[:90] for k, v in sm.step.items()})
+        return
+    asg, _b = f
+    r2.ok({"C": asg["C"], "RES": asg["RES"], "piece": S.show(sm.step[asg["RES"]])[:120]})
+    c = sm.cond
+    Cv = ("var", asg["C"])
+    oku = c is not None and c[0] == "cmp" and len(c[1]) == 1 and ((c[1][0] in ("NotEq", "Lt") and c[2] == (Cv, _len(xb))) or (c[1][0] in ("NotEq", "Gt") and c[2] == (_len(xb), Cv)))
+    r2.require(oku, sp, "cuts until the end", "split's loop condition is %s; expected to run until the offset reaches len(xbytes)" % (S.show(c) if c else None), sm.loop)
+    r2.require(sm.ret == ("var", asg["RES"]), sp, "returns the pieces", "split returns %s" % (S.show(sm.ret) if sm.ret else None))
 
-    # ---------------------------------------------------------------- integers
+
+# ---------------------------------------------------------------------------------------------------------------- integers
+def _check_integers(repo, r3):
     i2b, b2i = repo.func(BU, "int_to_bytes"), repo.func(BU, "int_from_bytes")
-    o1 = [c for c in ast.walk(i2b.node) if isinstance(c, ast.Call) and isinstance(c.func, ast.Attribute) and c.func.attr == "to_bytes"]
-    o2 = [c for c in ast.walk(b2i.node) if isinstance(c, ast.Call) and (dotted(c.func) or "").endswith("from_bytes")]
-    def order(c, pos):
-        a = c.args[pos] if len(c.args) > pos else next((k.value for k in c.keywords if k.arg == "byteorder"), None)
-        return a.value if isinstance(a, ast.Constant) else None
-    ok = len(o1) == 1 and len(o2) == 1 and order(o1[0], 1) == order(o2[0], 1) == "big"
-    r3.require(ok, i2b, "one byte order", "int_to_bytes uses %r and int_from_bytes %r" % (order(o1[0], 1) if o1 else None, order(o2[0], 1) if o2 else None))
-    if o1:
-        r3.require(unparse(o1[0].func.value) == i2b.params[0] and unparse(o1[0].args[0]) == i2b.params[1], i2b, "encodes x in output_len bytes", "int_to_bytes encodes %s" % unparse(o1[0]))
-    if o2:
-        r3.require(unparse(o2[0].args[0]) == b2i.params[0], b2i, "decodes its argument", "int_from_bytes decodes %s" % unparse(o2[0]))
-    d = [st for st in i2b.node.body if isinstance(st, ast.If) and unparse(st.test) == "%s == -1" % i2b.params[1]]
-    r3.require(bool(d) and unparse(d[0].body[0]) == "%s = (%s.bit_length() + 7) // 8" % (i2b.params[1], i2b.params[0]), i2b, "minimal width",
-               "int_to_bytes' default width is no longer (bit_length + 7) // 8")
-    alz = repo.func(BU, "add_leading_zeros")
-    r3.require(unparse(alz.node.body[-1]) == "return b'\\x00' * max(%s - len(%s), 0) + %s" % (alz.params[1], alz.params[0], alz.params[0]), alz, "pads on the left with zeros",
-               "add_leading_zeros no longer left-pads with zero bytes up to output_len")
-    bx = repo.func(BU, "bytes_xor")
-    src = unparse(bx.node)
-    r3.require("result = bytearray(%s)" % bx.params[0] in src and "for i, b_byte in enumerate(%s)" % bx.params[1] in src and "result[i] ^= b_byte" in src and "return bytes(result)" in src,
-               bx, "positional xor", "bytes_xor no longer xors position by position into a copy of its first operand")
+    x, ol = ("var", i2b.params[0]), ("var", i2b.params[1])
+    try:
+        dflt = repo.const_value(i2b.module, i2b.node.args.defaults[0])
+    except Exception:
+        dflt = None
 
-    # ---------------------------------------------------------------- converters
+    def to_bytes(t):
+        """(width term, byte order) of  <x>.to_bytes(width, order)"""
+        if t is None or t[0] != "call" or t[1] != ("method", x, "to_bytes"):
+            return None
+        kw = dict(t[3])
+        w = t[2][0] if t[2] else kw.get("length")
+        o = t[2][1] if len(t[2]) > 1 else kw.get("byteorder", ("const", "big"))
+        return w, o
+    orders = set()
+    ok_w, seen_d = True, False
+    minimal = [("op", "FloorDiv", ("cat", (("call", ("method", x, "bit_length"), (), ()), ("const", 7))), ("const", 8)),
+               ("op", "FloorDiv", ("cat", (("const", 7), ("call", ("method", x, "bit_length"), (), ()))), ("const", 8))]
+    shown = None
+    for ps in summarize(i2b):
+        if ps.exc is not None:
+            continue
+        tb = to_bytes(ps.ret)
+        if tb is None:
+            ok_w, shown = False, ps.ret
+            continue
+        w, o = tb
+        orders.add(o)
+        is_d = ps.has(lambda k, t: k[0] == "==" and repr(dflt) in k[1:] and entry(i2b.params[1]) in k[1:] and t)
+        if is_d:
+            seen_d = True
+            if w not in minimal:
+                r3.fail_fn(i2b, i2b.node, "minimal width", "int_to_bytes' default width is %s, no longer (bit_length + 7) // 8" % S.show(w))
+        elif w != ol:
+            ok_w, shown = False, ps.ret
+    r3.require(ok_w, i2b, "encodes x in output_len bytes", "int_to_bytes encodes %s" % (S.show(shown)[:100] if shown else None))
+    r3.require(seen_d, i2b, "default width handled", "int_to_bytes no longer computes a width when none is given")
+    rets = [ps.ret for ps in summarize(b2i) if ps.exc is None]
+    bx_ = ("var", b2i.params[0])
+    o2 = set()
+    okd = bool(rets)
+    for rt in rets:
+        if rt is None or rt[0] != "call" or rt[1] != ("fn", "int.from_bytes") or not rt[2] or rt[2][0] != bx_:
+            okd = False
+            continue
+        o2.add(rt[2][1] if len(rt[2]) > 1 else dict(rt[3]).get("byteorder", ("const", "big")))
+        if dict(rt[3]).get("signed", ("const", False)) != ("const", False):
+            okd = False
+    r3.require(okd, b2i, "decodes its argument", "int_from_bytes returns %s" % [S.show(t)[:80] if t else None for t in rets])
+    r3.require(orders == o2 == {("const", "big")}, i2b, "one byte order", "int_to_bytes uses %s and int_from_bytes %s" % (
+        sorted(S.show(o) for o in orders if o), sorted(S.show(o) for o in o2 if o)))
+    alz = repo.func(BU, "add_leading_zeros")
+    ax, al = ("var", alz.params[0]), ("var", alz.params[1])
+    miss = [("call", ("fn", "max"), (("op", "Sub", al, _len(ax)), ("const", 0)), ()), ("call", ("fn", "max"), (("const", 0), ("op", "Sub", al, _len(ax))), ()), ("op", "Sub", al, _len(ax))]
+    want = [("cat", (z, ax)) for m_ in miss for z in _zeros(m_)]
+    rets = [ps.ret for ps in summarize(alz) if ps.exc is None]
+    good = bool(rets) and all(rt in want or rt == ax for rt in rets) and any(rt in want for rt in rets)
+    if not good and rets:
+        # rjust / zfill forms
+        good = all(rt == ("call", ("method", ax, "rjust"), (al, ZERO), ()) for rt in rets)
+    r3.require(good, alz, "pads on the left with zeros", "add_leading_zeros no longer left-pads with zero bytes up to output_len (returns %s)" % [S.show(t)[:100] if t else None for t in rets])
+    _check_xor(repo, r3)
+
+
+def _check_xor(repo, r3):
+    bx = repo.func(BU, "bytes_xor")
+    a, b = bx.params[:2]
+    node = bx.node
+    ok, why = False, "no copy of the first operand"
+    R = None
+    for st in ast.walk(node):
+        if isinstance(st, ast.Assign) and len(st.targets) == 1 and isinstance(st.targets[0], ast.Name) and isinstance(st.value, ast.Call) and \
+                dotted(st.value.func) == "bytearray" and len(st.value.args) == 1 and isinstance(st.value.args[0], ast.Name) and st.value.args[0].id == a:
+            R = st.targets[0].id
+    if R is not None:
+        why = "no loop xoring every byte of the second operand into its position"
+        for lp in ast.walk(node):
+            if not isinstance(lp, ast.For):
+                continue
+            idx = byte = None
+            it = lp.iter
+            if isinstance(it, ast.Call) and dotted(it.func) == "enumerate" and len(it.args) == 1 and isinstance(it.args[0], ast.Name) and it.args[0].id == b and \
+                    isinstance(lp.target, ast.Tuple) and len(lp.target.elts) == 2 and all(isinstance(e, ast.Name) for e in lp.target.elts):
+                idx, byte = lp.target.elts[0].id, lp.target.elts[1].id
+            elif isinstance(it, ast.Call) and dotted(it.func) == "range" and len(it.args) == 1 and unparse(it.args[0]) == "len(%s)" % b and isinstance(lp.target, ast.Name):
+                idx, byte = lp.target.id, "%s[%s]" % (b, lp.target.id)
+            if idx is None:
+                continue
+            for st in lp.body:
+                tgt = val = None
+                if isinstance(st, ast.AugAssign) and isinstance(st.op, ast.BitXor):
+                    tgt, val = st.target, st.value
+                elif isinstance(st, ast.Assign) and len(st.targets) == 1 and isinstance(st.value, ast.BinOp) and isinstance(st.value.op, ast.BitXor) and \
+                        unparse(st.value.left) == unparse(st.targets[0]):
+                    tgt, val = st.targets[0], st.value.right
+                if tgt is not None and unparse(tgt) == "%s[%s]" % (R, idx) and unparse(val) == byte and len(lp.body) == 1:
+                    ok = True
+        if ok:
+            rets = [r for r in ast.walk(node) if isinstance(r, ast.Return)]
+            ok = len(rets) == 1 and unparse(rets[0].value) in ("bytes(%s)" % R, R)
+            why = "the result is not the xored copy"
+    r3.require(ok, bx, "positional xor", "bytes_xor no longer xors position by position into a copy of its first operand (%s): the result must keep the first operand's length "
+               "(a mask shorter than the data leaves the tail unchanged)" % why)
+
+
+# ---------------------------------------------------------------------------------------------------------------- converters
+def _check_converters(repo, r4):
+    from ..terms import fn_terms
     bc = repo.cls(BU, "BytesConverter")
     try:
         fmts = set(repo.const_value(bc.module, bc.attrs["supported_format"]))
@@ -135,25 +367,94 @@ def check(repo):
                "supported_format is %s but the converters are %s" % (sorted(fmts) if fmts else None, sorted(have)))
     cv = bc.methods.get("convert_bytes")
     if cv is not None:
-        src = unparse(cv.node)
-        r4.require("hasattr(BytesConverter, 'bytes_to_' + %s)" % cv.params[1] in src and "raise ValueError" in src and
-                   "getattr(BytesConverter, 'bytes_to_' + %s)(%s)" % (cv.params[1], cv.params[0]) in src, cv, "dispatch by format name", "convert_bytes no longer dispatches on bytes_to_<format> / refuses unknown formats")
-    for name, body in (("bytes_to_hex", "return xbytes.hex()"), ("bytes_to_raw", "return xbytes"), ("bytes_to_int", "return int_from_bytes(xbytes)"),
-                       ("bytes_to_utf8", "return xbytes.decode(encoding='utf-8')")):
-        f = bc.methods.get(name)
-        r4.require(f is not None and unparse(f.node.body[-1]) == body, f or cv, name, "%s no longer does `%s`" % (name, body))
+        xb, fm = ("var", cv.params[0]), ("var", cv.params[1])
+        name = ("cat", (("const", "bytes_to_"), fm))
+        paths = summarize(cv)
+        okd = bool(raising(paths, "ValueError"))
+        for ps in normal(paths):
+            rt = ps.ret
+            g = rt[1] if rt is not None and rt[0] == "call" and rt[2] == (xb,) and isinstance(rt[1], tuple) else None
+            if g is not None and g[0] == "fnval":
+                g = S.canon(g[1])
+            good = g is not None and g[0] == "call" and g[1] == ("fn", "getattr") and len(g[2]) >= 2 and g[2][0] in (("var", "BytesConverter"), ("var", "cls")) and g[2][1] == name
+            checked = ps.has(lambda k, t: (k[0] == "truth" and k[1].startswith("hasattr(") and t) or (k[0] == "is" and "None" in k[1:] and not t))
+            if not (good and checked):
+                okd = False
+        r4.require(okd, cv, "dispatch by format name", "convert_bytes no longer dispatches on bytes_to_<format> / refuses unknown formats")
+    forms = {"bytes_to_hex": lambda x: [("call", ("method", x, "hex"), (), ())],
+             "bytes_to_raw": lambda x: [x],
+             "bytes_to_int": lambda x: [("call", ("fn", "int_from_bytes"), (x,), ()), ("call", ("fn", "int.from_bytes"), (x, ("const", "big")), ())],
+             "bytes_to_utf8": lambda x: [("call", ("method", x, "decode"), (), (("encoding", ("const", "utf-8")),)), ("call", ("method", x, "decode"), (("const", "utf-8"),), ()),
+                                         ("call", ("method", x, "decode"), (), ())]}
+    for nm, mk in forms.items():
+        f = bc.methods.get(nm)
+        rets = [ps.ret for ps in summarize(f) if ps.exc is None] if f is not None else []
+        r4.require(f is not None and bool(rets) and all(rt in mk(("var", f.params[0])) for rt in rets), f or cv, nm, "%s no longer returns %s" % (nm, S.show(mk(("var", "xbytes"))[0])))
+    # database conversion: {bytes(keyword, encoding): [bytes.fromhex(identifier) for identifier in db[keyword]]} in a fresh dict
     cd = repo.func(DBU, "convert_database_keyword_to_bytes")
-    src = unparse(cd.node)
-    r4.require("bytes(keyword, encoding=encoding)" in src and "bytes.fromhex(identifier)" in src and "result = {}" in src and "identifier_bytes_list = []" in src
-               and "result[keyword_bytes] = identifier_bytes_list" in src, cd, "database conversion", "convert_database_keyword_to_bytes no longer encodes keywords / hex-decodes identifiers into fresh lists")
+    ft = fn_terms(repo, cd)
+    dbp, encp = cd.params[0], cd.params[1]
+    okdb = False
+    kw = ("elem", ("param", dbp))
+    want_key = ("call", "bytes", (kw,), (("encoding", ("param", encp)),))
+    want_key2 = ("mcall", kw, "encode", (("param", encp),), ())
+    idt_srcs = [("elem", ("sub", ("param", dbp), kw))]
+    for n in ft.cfg.nodes:
+        if n.kind == "return" and n.stmt.value is not None:
+            t = ft.term(n.stmt.value, n.id)
+            good = False
+            if t[0] == "cont" and t[2] in (("dict", ()), ("call", "dict", (), ())):
+                sets = [m for m in t[3] if m[0] == "setitem"]
+                good = bool(sets) and len(sets) == len(t[3])
+                for m in sets:
+                    key, val = m[2], m[3]
+                    if key not in (want_key, want_key2):
+                        good = False
+                    els = []
+                    if val[0] == "cont" and val[2] in (("list", ()), ("call", "list", (), ())):
+                        els = [mm[2][0] for mm in val[3] if mm[0] == "append" and mm[2]]
+                        if len(els) != len(val[3]):
+                            good = False
+                    elif val[0] == "comp" and val[1] == "ListComp":
+                        els = [val[2]]
+                    else:
+                        good = False
+                    for v in els:
+                        if not (v[0] == "call" and v[1] == "bytes.fromhex" and len(v[2]) == 1 and (v[2][0] in idt_srcs or _is_item_value(v[2][0], dbp))):
+                            good = False
+                    if not els:
+                        good = False
+            elif t[0] == "comp" and t[1] == "DictComp":
+                good = False  # not used by the repo; would need the key/value pair form
+            okdb = okdb or good
+    r4.require(okdb, cd, "database conversion", "convert_database_keyword_to_bytes no longer maps bytes(keyword, encoding) to the list of bytes.fromhex(identifier) of that keyword")
     dflt = cd.node.args.defaults
     r4.require(bool(dflt) and isinstance(dflt[0], ast.Constant) and dflt[0].value == "utf-8", cd, "default encoding utf-8", "convert_database_keyword_to_bytes no longer defaults to utf-8")
     gt = repo.func(DBU, "get_total_size")
-    r4.require(unparse(gt.node.body[-1]) == "return sum((len(identifier_list) for identifier_list in %s.values()))" % gt.params[0], gt, "total size", "get_total_size no longer sums the list lengths")
+    ftg = fn_terms(repo, gt)
+    okt = False
+    for n in ftg.cfg.nodes:
+        if n.kind == "return" and n.stmt.value is not None:
+            t = ftg.term(n.stmt.value, n.id)
+            if t[0] == "call" and t[1] == "sum" and len(t[2]) == 1:
+                inner = t[2][0]
+                d = ("param", gt.params[0])
+                if inner[0] == "comp" and inner[2][0] == "call" and inner[2][1] == "len" and inner[2][2] and inner[2][2][0] in (("sub", d, ("elem", d)), ("elem", ("mcall", d, "values", (), ()))):
+                    okt = True
+                if inner[0] == "call" and inner[1] == "map" and len(inner[2]) == 2 and inner[2][1] == ("mcall", d, "values", (), ()):
+                    okt = True
+    r4.require(okt, gt, "total size", "get_total_size no longer sums the list lengths")
     ch = repo.func("toolkit/list_utils.py", "chunks")
-    src = unparse(ch.node)
-    r4.require("range(0, len(%s), %s)" % tuple(ch.params[:2]) in src and "yield %s[i:i + %s]" % tuple(ch.params[:2]) in src, ch, "chunks", "list_utils.chunks no longer yields consecutive n-sized slices")
-    return rules
+    l2, n2 = (("var", x) for x in ch.params[:2])
+    I2 = _range_elem(l2, n2)
+    ys = [c for ps in summarize(ch, unroll=1) if ps.exc is None for _n, c, _f in ps.calls if c[0] == "yield"]
+    r4.require(bool(ys) and all(y[1] in (("slice", l2, I2, ("cat", (I2, n2))), ("slice", l2, I2, ("cat", (n2, I2)))) for y in ys), ch, "chunks",
+               "list_utils.chunks no longer yields consecutive n-sized slices")
+
+
+def _is_item_value(t, dbp):
+    # for keyword, ids in db.items(): ... elem(ids)
+    return t[0] == "elem" and t[1][0] == "sub" and t[1][1] == ("param", dbp)
 
 
 # ----------------------------------------------------------------------------- self-test variants
